@@ -436,4 +436,17 @@ def decryptDispatch (i : SDIn) : Outcome SDOut :=
     | .agile => .ok .agile
     | .standard => (standardDecrypt i).bind fun n => .ok (.standard n)
 
+/-! ## unzip size accounting -/
+
+/-- the loop of `ReadZipReader`: the declared size of every entry is added to the running total and
+the total is compared with `UnzipSizeLimit` BEFORE the entry is read or spooled to a temporary file -/
+def zipAccount : List Nat → Nat → Nat → Bool
+  | [], _, _ => true
+  | s :: rest, run, limit => if run + s > limit then false else zipAccount rest (run + s) limit
+
+/-- `checkOpenReaderOptions` (both limits given) followed by `ReadZipReader`'s accounting -/
+def openLimits (sizes : List Nat) (limit xmlLimit : Nat) : Outcome Unit :=
+  if xmlLimit > limit then .err
+  else if zipAccount sizes 0 limit then .ok () else .err
+
 end XlModel.Decode
